@@ -54,6 +54,13 @@ theorem error_is_inert (d : Deque) (m : Mem) (op : Op) (hi : d.Inv) (s : Stat)
     exact ((hra 0 0 hi).2.2.2 (by rw [hst]; exact hne)).1
   | contains x => rfl
   | indexOf x => rfl
+  | size => rfl
+  | foreach => rfl
+  | copySwap cp =>
+    rcases Deque.copy_spec d cp m hi with ⟨n1, c, n2, _⟩ | ⟨_, n2, _⟩
+    · simp only [stepM, n2, n1, Option.some.injEq] at hst
+      exact absurd hst.symm hne
+    · simp only [stepM, n2]
 
 /-- **out_of_range_rejected**: every index outside `[0, size)` — in all of ℕ — is rejected by every
 indexed function, and nothing at all changes (state and ledger) -/
@@ -113,11 +120,13 @@ theorem iterator_error_is_inert (it : Deque.Iter) (d : Deque) (x : Nat) (m : Mem
     ((Deque.iterRemove it d m).1 ≠ .ok → (Deque.iterRemove it d m).2.2.2.1 = d ∧
       (Deque.iterRemove it d m).2.2.1 = it ∧ (Deque.iterRemove it d m).2.2.2.2 = m) ∧
     ((Deque.iterReplace it d x m).1 ≠ .ok → Deque.iterReplace it d x m = (.errOutOfRange, none, d, m)) ∧
-    ((Deque.iterAdd it d x m).1 ≠ .ok → (Deque.iterAdd it d x m).2.2.1 = d ∧ (Deque.iterAdd it d x m).2.1 = it) ∧
+    ((Deque.iterAdd it d x m).1 ≠ .ok → (Deque.iterAdd it d x m).2.2.1 = d ∧ (Deque.iterAdd it d x m).2.1 = it ∧
+      Deque.memSame d.triple (Deque.iterAdd it d x m).2.2.2 m) ∧
     (it.index = 0 → (Deque.iterRemove it d m).1 ≠ .ok ∧ (Deque.iterReplace it d x m).1 ≠ .ok) := by
   obtain ⟨_, _, _, _, _, r6, r7⟩ := Deque.iterRemove_spec it d m hi
   refine ⟨fun h => ⟨(r7 h).1, (r7 h).2, r6⟩, Deque.iterReplace_error_inert it d x m,
-    (Deque.iterAdd_safe it d x m hi).2.2.1, fun h0 => ?_⟩
+    fun h => ⟨((Deque.iterAdd_safe it d x m hi).2.2.1 h).1, ((Deque.iterAdd_safe it d x m hi).2.2.1 h).2,
+      (Deque.iterAdd_safe it d x m hi).2.1⟩, fun h0 => ?_⟩
   obtain ⟨q1, _⟩ := Deque.iterRemove_spec it d m hi
   obtain ⟨p1, _⟩ := Deque.iterReplace_spec it d x m hi
   unfold Spec.DequeSpec.curRemove Deque.Iter.cur at q1
@@ -157,7 +166,7 @@ theorem constructor_accepts_every_capacity (confCap : Nat) (t : Triple) (m : Mem
     · rw [n4] at h2; exact absurd h2.1 (by decide)
 
 /-- non-vacuity: `get_at(size)` on an exactly full wrapped deque is rejected and inert -/
-example : (stepM (Deque.mk 4 4 3 3 [12, 13, 14, 11] .conf) {} (.getAt 4)).1 = ⟨some .errOutOfRange, none⟩ ∧
+example : (stepM (Deque.mk 4 4 3 3 [12, 13, 14, 11] .conf) {} (.getAt 4)).1 = ⟨some .errOutOfRange, none, []⟩ ∧
     (stepM (Deque.mk 4 4 3 3 [12, 13, 14, 11] .conf) {} (.addAt 9 4)).2.1 = Deque.mk 4 4 3 3 [12, 13, 14, 11] .conf := by
   decide
 
